@@ -6,6 +6,7 @@
 #![allow(unused_variables)]
 
 pub mod ctx;
+pub mod dirsem;
 pub mod excl;
 pub mod insn;
 pub mod ops;
@@ -589,4 +590,10 @@ harnesses! {
     c05_func_log2_neg { prop: C05, feat: "c05", tier: thorough, mode: full, unwind: 7, caps: "run=2,clone=1,drop=2,loop:avra_lib::expr::Expr::run_nested.0=67" } => |s| c05::ev_func(s, 9, 10, 0);
     // (pass-level scenarios of step.rs are not registered: the smallest one reached 9.7 GB in the third
     //  iteration of pass 1 after 20 min even with process / Item::clone replaced by models - DESIGN.md 0)
+    // ---- directive-level semantics (Directive::parse on the parse context's segment list)
+    c02_dir_org_lit { prop: C02, feat: "c02", tier: quick, mode: leaf, unwind: 4, caps: "drop=1" } => |s| dirsem::dir_org(s, 0);
+    c02_dir_org_sym { prop: C02, feat: "c02", tier: quick, mode: leaf, unwind: 4, caps: "drop=1" } => |s| dirsem::dir_org(s, 1);
+    c02_dir_segment { prop: C02, feat: "c02", tier: quick, mode: leaf, unwind: 4, caps: "drop=1" } => |s| dirsem::dir_segment(s);
+    c06_dir_byte_lit { prop: C06, feat: "c06", tier: quick, mode: leaf, unwind: 4, caps: "drop=1" } => |s| dirsem::dir_byte(s, 0);
+    c06_dir_byte_sym { prop: C06, feat: "c06", tier: quick, mode: leaf, unwind: 4, caps: "drop=1" } => |s| dirsem::dir_byte(s, 1);
 }
